@@ -577,7 +577,7 @@ class Vector():
 			return self._underlying[key[-1]][key[:-1]]
 
 		key = self._check_duplicate(key)
-		if isinstance(key, Vector) and key.schema().kind == bool and not key.schema().nullable:
+		if isinstance(key, Vector) and key.schema() is not None and key.schema().kind == bool and not key.schema().nullable:
 			if len(self) != len(key):
 				raise ValueError(f"Boolean mask length mismatch: {len(self)} != {len(key)}")
 			return self.copy((x for x, y in zip(self, key, strict=True) if y), name=self._name)
@@ -589,7 +589,7 @@ class Vector():
 			return self.copy(self._underlying[key], name=self._name)
 
 		# NOT RECOMMENDED
-		if isinstance(key, Vector) and key.schema().kind == int and not key.schema().nullable:
+		if isinstance(key, Vector) and key.schema() is not None and key.schema().kind == int and not key.schema().nullable:
 			if len(self) > 1000:
 				warnings.warn('Subscript indexing is sub-optimal for large vectors; prefer slices or boolean masks')
 			return self.copy((self[x] for x in key), name=self._name)
@@ -645,6 +645,7 @@ class Vector():
 		# =====================================================================
 		if (
 			isinstance(key, Vector)
+			and key.schema() is not None
 			and key.schema().kind == bool
 			and not key.schema().nullable
 		) or (
@@ -706,6 +707,7 @@ class Vector():
 		# =====================================================================
 		elif (
 			isinstance(key, Vector)
+			and key.schema() is not None
 			and key.schema().kind == int
 			and not key.schema().nullable
 		):
